@@ -588,10 +588,15 @@ def c11(m, h, i, s):
         total = I(s.pre, f"v{v}.total")
         pay = tdiv(total * exp, D)
         ifa = I(s.pre, "e.ifund")
-        d_eng = bal(s.obs, 2) - bal(s.pre, 2)
+        # coins the caller attached to the call (native collateral) reach the vault before the handler runs: they are
+        # part of the vault's balance the payment is capped at, and are not part of the funding movement
+        att = int(s.toks[2])
+        if att:
+            m.hit("funding-with-coins-attached", h, i)
+        d_eng = bal(s.obs, 2) - bal(s.pre, 2) - att
         d_if = bal(s.obs, ifa) - bal(s.pre, ifa)
         if pay > 0:
-            amt = min(pay, bal(s.pre, 2))
+            amt = min(pay, bal(s.pre, 2) + att)
             m.hit("funding-to-fund" + ("-capped" if amt < pay else ""), h, i)
             if (d_eng, d_if) != (-amt, amt):
                 m.bad(h, i, "funding_transfer", f"expected {amt} vault -> fund, saw vault {d_eng}, fund {d_if}")
